@@ -103,8 +103,10 @@ def context_dimension(ctx, binary, thorough):
     t = ctx.tlc_check(FAMILY, "JsonRpcMBT.tla", "JsonRpc_ctx_table.cfg", timeout=600, files=asis(ctx, "JsonRpc_ctx_table.cfg"),
                       label="as-is: context state at arrival x gate, singles + batches of one (exported)")
     rows = ctx_rows_of(t)
-    for cfg, inv, lab in (("JsonRpc_ctx_expired_silent.cfg", "POnePerEntry", "mutant: expired deadline treated like a notification"),
-                          ("JsonRpc_ctx_cancelled_silent.cfg", "PHandlerOnceOrError", "mutant: cancelled context, entry skipped")):
+    mutants = [("JsonRpc_ctx_expired_silent.cfg", "POnePerEntry", "mutant: expired deadline treated like a notification")]
+    if thorough:
+        mutants += [("JsonRpc_ctx_cancelled_silent.cfg", "PHandlerOnceOrError", "mutant: cancelled context, entry skipped")]
+    for cfg, inv, lab in mutants:
         h = ctx.tlc_check(FAMILY, "MCJsonRpc.tla", cfg, timeout=600, expect_violation=True, label="%s: %s must fail" % (lab, inv),
                           files=asis(ctx, cfg))
         if h["violated"] != inv:
